@@ -132,11 +132,11 @@ def validate(ctx, records, batch=6000, par=4):
 
 PLANS = {
     "quick": dict(plan=[dict(profile="calls", maxlen=5), dict(profile="data", maxlen=5),
-                        dict(profile="sharing", maxlen=5), dict(profile="headers", maxlen=5),
+                        dict(profile="sharing", maxlen=5), dict(profile="headers", maxlen=5), dict(profile="objcont", maxlen=5),
                         dict(profile="mixed", maxlen=14, simulate=120, depth=14, minstop=7, maxdepth=6)],
                   per_shape=1, natural=400),
     "thorough": dict(plan=[dict(profile="calls", maxlen=6), dict(profile="data", maxlen=6),
-                           dict(profile="sharing", maxlen=6), dict(profile="headers", maxlen=6),
+                           dict(profile="sharing", maxlen=6), dict(profile="headers", maxlen=6), dict(profile="objcont", maxlen=6),
                            dict(profile="mixed", maxlen=30, simulate=6000, depth=30, minstop=10, maxdepth=8)],
                      per_shape=2, natural=6000),
 }
